@@ -8,6 +8,7 @@ import (
 	"io"
 	"testing"
 	"testing/synctest"
+	"time"
 
 	goat "github.com/avos-io/goat"
 	"google.golang.org/grpc"
@@ -20,18 +21,20 @@ import (
 // status (never success).
 
 type stProg struct {
-	rk     int    // 1 client stream, 2 server stream, 3 bidi
-	nc     int    // messages the caller sends before the handler returns
-	r      int    // messages the handler receives before returning
-	ns     int    // messages the handler sends before returning
-	closed bool   // caller closes its direction before the handler returns
-	late   int    // messages the caller sends after the handler returned
-	hold   bool   // the trailer stays in flight until the late messages (and the server's answer to them) are out
-	k      *hkind // what the handler returns
+	rk       int    // 1 client stream, 2 server stream, 3 bidi
+	nc       int    // messages the caller sends before the handler returns
+	r        int    // messages the handler receives before returning
+	ns       int    // messages the handler sends before returning
+	closed   bool   // caller closes its direction before the handler returns
+	late     int    // messages the caller sends after the handler returned
+	hold     bool   // the trailer stays in flight until the late messages (and the server's answer to them) are out
+	k        *hkind // what the handler returns
+	connDies bool   // after the handler returned (trailer behind unread messages) the caller's connection fails
+	abort    string // "cancel" / "deadline": the caller gives up with the handler's messages unread
 }
 
 func (p stProg) desc() map[string]any {
-	return map[string]any{"rk": p.rk, "nc": p.nc, "r": p.r, "ns": p.ns, "closed": p.closed, "late": p.late, "hold": p.hold, "err": p.k.desc()}
+	return map[string]any{"rk": p.rk, "nc": p.nc, "r": p.r, "ns": p.ns, "closed": p.closed, "late": p.late, "hold": p.hold, "err": p.k.desc(), "connDies": p.connDies, "abort": p.abort}
 }
 
 func stPrograms(kinds []*hkind) []stProg {
@@ -114,6 +117,11 @@ func runStProg(t *testing.T, reg *tokReg, p stProg) (sent []int64, obs string) {
 			desc, method = descSStream, "/verif.Echo/SStream"
 		}
 		ctx, cancel := context.WithCancel(context.Background())
+		if p.abort == "deadline" {
+			var c2 context.CancelFunc
+			ctx, c2 = context.WithTimeout(ctx, time.Hour)
+			defer c2()
+		}
 		cs, err := cc.NewStream(ctx, desc, method)
 		if err != nil {
 			t.Fatal(err)
@@ -159,6 +167,19 @@ func runStProg(t *testing.T, reg *tokReg, p stProg) (sent []int64, obs string) {
 			l.mu.Lock()
 			l.Auto = true
 			l.mu.Unlock()
+		}
+		if p.connDies {
+			// the peer hangs up right after finishing the RPC: the trailer is already queued for the call
+			l.C.FailRead(io.EOF)
+			synctest.Wait()
+		}
+		switch p.abort {
+		case "cancel":
+			cancel()
+			synctest.Wait()
+		case "deadline":
+			time.Sleep(2 * time.Hour)
+			synctest.Wait()
 		}
 		bodies, term := reg.drain(cs)
 		obs = reg.sobsCoq(bodies, term)
@@ -234,6 +255,36 @@ func TestC03E2E(t *testing.T) {
 			Coq: fmt.Sprintf("CE2ES %d %s %s %s", p.rk, p.k.coq(reg), zs(sent), obs)})
 		stEnd(em, idx)
 		idx++
+	}
+
+	// ---- the peer hangs up right after the RPC: the final status waits in the call's queue behind unread messages
+	//      when the connection fails; and: the caller gives up with the handler's messages unread
+	for _, k := range small {
+		for _, rk := range []int{2, 3} {
+			for ns := 1; ns <= 2; ns++ {
+				for _, variant := range []string{"conn-dies", "cancel", "deadline"} {
+					if !want(idx) {
+						idx++
+						continue
+					}
+					stBegin(em, idx)
+					p := stProg{rk: rk, nc: 1, r: 0, ns: ns, closed: rk == 2, k: k}
+					ctor := "CE2ES"
+					if variant == "conn-dies" {
+						p.connDies = true
+					} else {
+						p.abort = variant
+						ctor = "CE2EAbort"
+					}
+					sent, obs := runStProg(t, reg, p)
+					tags := append(k.tags(), "part=e2e", fmt.Sprintf("rpc=%s", map[int]string{2: "server-stream", 3: "bidi"}[rk]), "position=unread-messages-then-"+variant)
+					em.Emit(Rec{Idx: idx, Kind: "e2e-stream-" + variant, Desc: p.desc(), Tags: tags,
+						Coq: fmt.Sprintf("%s %d %s %s %s", ctor, rk, k.coq(reg), zs(sent), obs)})
+					stEnd(em, idx)
+					idx++
+				}
+			}
+		}
 	}
 
 	// ---- a RecvMsg already blocked when the handler returns, the read loop held up inside its own cancel()
